@@ -444,6 +444,7 @@ def main(prop, tier='quick', seed=None, replay=None):
         hot_info = _hot.analyse(REPO)
         os.environ['VERIF_HOT_SIZES'] = ','.join(str(x) for x in hot_info['hot'][:4])
         os.environ['VERIF_HOT_BIG'] = ','.join(str(x) for x in hot_info['big'][:8])
+        os.environ['VERIF_TIER'] = tier
         os.environ['VERIF_SRC_CHANGED'] = '1' if hot_info['changed_files'] else ''
         gen_cases = list(mod.gen(tier, rng))
         cases = corpus + gen_cases
